@@ -74,6 +74,15 @@ func init() {
 			}
 			rep.ConcRuns++
 		}
+		if *conc > 0 {
+			for _, m := range gatedrep.FirstUse(int64(cfg.E), 40**conc) {
+				rep.MismatchN++
+				for _, p := range m.Props {
+					rep.ByProp[p]++
+				}
+				rep.Mismatches = append(rep.Mismatches, m)
+			}
+		}
 		if err := writeJSON(*out, rep); err != nil {
 			return 2
 		}
